@@ -482,6 +482,8 @@ func (p *NonFunctionalPropertyGenerator) funcs() []*codegen.Method {
 					jen.Id(codegen.This()).Dot(propertiesName).Index(jen.Id("j")),
 					jen.Id(codegen.This()).Dot(propertiesName).Index(jen.Id("i")),
 				),
+				jen.Id(codegen.This()).Dot(propertiesName).Index(jen.Id("i")).Dot(myIndexMemberName).Op("=").Id("i"),
+				jen.Id(codegen.This()).Dot(propertiesName).Index(jen.Id("j")).Dot(myIndexMemberName).Op("=").Id("j"),
 			},
 			fmt.Sprintf("%s swaps the location of values at two indices for the %q property.", swapMethod, p.PropertyName())))
 	// Less Method
